@@ -57,16 +57,22 @@ def _run_one(cfile, ob, timeout, mem_kb, members):
         return Result(ob, UNDECIDED, time.time() - t0, detail='cbmc timeout')
     secs = time.time() - t0
     backend = ''
+    answer = ''
     try:
         with open(logf) as f:
             lines = f.read().strip().split('\n')
             backend = lines[-1].split()[0] if lines and lines[-1] else ''
+            answer = lines[-1].split()[1] if lines and len(lines[-1].split()) > 1 else ''
         os.remove(logf)
     except OSError:
         pass
     m = re.search(r'^\[main\.assertion\.%d\] .*: (SUCCESS|FAILURE|ERROR|UNKNOWN)\s*$' % ob.index, out, re.M)
     if not m:
         tail = out[-800:]
+        if answer == 'sat' and 'parse_literal' in out:
+            # the solver found a counterexample whose model contains an algebraic (irrational) number that CBMC cannot read back
+            return Result(ob, REFUTED, secs, backend, 'solver answered sat; the model contains an irrational value (root-obj) that CBMC cannot print',
+                          trace='solver: sat (model with algebraic number, not printable by CBMC)\n' + tail)
         return Result(ob, UNDECIDED, secs, backend, 'no verdict line: ' + tail)
     v = m.group(1)
     if v == 'SUCCESS':
